@@ -111,7 +111,7 @@ namespace cds { namespace gc { namespace hp { namespace details {
         size_t calc_retired_size( size_t nSize, size_t nHPCount, size_t nThreadCount )
         {
             size_t const min_size = nHPCount * nThreadCount;
-            return nSize < min_size ? min_size * 2 : nSize;
+            return nSize <= min_size ? min_size * 2 : nSize;
         }
 
         stat s_postmortem_stat;
